@@ -6,6 +6,12 @@
  *   RELAY_TAILBUF        sizeof(buf) in _flush_output() (a tail is cut every RELAY_TAILBUF-1 bytes)
  *   RELAY_TAIL_CALLS     number of out() calls _flush_output() spends on a short labelled tail:
  *                        2 = label and data separately (defect D6), 1 = one call (repaired form)
+ *   RELAY_XRC_SKIPS_DIGIT  _extract_rc on "foo" RC_MAGIC "3\n": 1 = returns 0, the status is parsed
+ *                        from one past its first digit when text precedes the marker (defect D9),
+ *                        0 = returns 3 (repaired form: number read before the line is cut)
+ *   RELAY_RC_EVERY_LINE  _flush_lines (read_rc) on RC_MAGIC "3\nmore\n": 1 = th->rc ends up 0, every
+ *                        stdout line assigns th->rc (a later line resets the status), 0 = th->rc stays
+ *                        3 (repaired form: only lines carrying the marker assign)
  *   RC_MAGIC_BYTES       RC_MAGIC as a byte list
  */
 #define _GNU_SOURCE
@@ -72,6 +78,24 @@ int main(void)
     ncalls = 0;
     _flush_output(th[0].outbuf, (out_f) recorder, &th[0]);
     LEAN_NAT("RELAY_TAIL_CALLS", ncalls);
+
+    {
+        /* the zero-filled Malloc(n + 1) buffer _flush_lines hands to _extract_rc */
+        static const char line[] = "foo" RC_MAGIC "3\n";
+        char *buf = Malloc(sizeof(line));
+        memcpy(buf, line, sizeof(line));
+        LEAN_NAT("RELAY_XRC_SKIPS_DIGIT", _extract_rc(buf) == 3 ? 0 : 1);
+        Free((void **) &buf);
+    }
+    {
+        static const char two[] = RC_MAGIC "3\nmore\n";
+        th[0].labels = false;
+        th[0].rc = 0;
+        cbuf_write(th[0].outbuf, (void *) two, sizeof(two) - 1, NULL);
+        ncalls = 0;
+        _flush_lines(th[0].outbuf, (out_f) recorder, true, &th[0]);
+        LEAN_NAT("RELAY_RC_EVERY_LINE", th[0].rc == 3 ? 0 : 1);
+    }
 
     printf("def RC_MAGIC_BYTES : List Nat := [");
     for (const char *p = RC_MAGIC; *p; p++)
